@@ -89,7 +89,7 @@ theorem qok_of_eff (cfg : Cfg) (s : St) (sh' : Shared) (t : Tid) (th th' : Threa
   | joined w r hth hw h hp =>
     have hq0 : s.sh.quiesced = true := by rw [← h.quiesced]; exact hq'
     exact keep hq0 h.tasks (fun nt e => by rw [hp] at e; cases e) (by rw [hw]; exact ⟨rfl, fun e => by simp [isWorker] at e⟩)
-  | setShut r hth hw hs h1 ht h3 h4 hp =>
+  | setShut r r' hth hw hs h1 ht h3 h4 hp =>
     have hq0 : s.sh.quiesced = true := by rw [← h4]; exact hq'
     rw [hqs hq0] at hs; cases hs
   | restart hth => rw [hnr] at hth; cases hth
